@@ -662,6 +662,34 @@ def Coll.touch : Coll → Coll
   | .lca k m sc sigs pls cache => .lca k m sc sigs pls (some (lcaCached sigs pls cache))
   | x => x
 
+/-- `SignaturePicklist.from_picklist_args("pickfile:column:coltype[:pickstyle]")` followed by the constructor's checks:
+    split on ':' (so a ':' in the path is not representable), an optional 4th field that must be exactly `include` or
+    `exclude`, exactly three fields left, a known column type, and no column name for the tuple column types.
+    -> (pickfile, column, coltype, exclude) -/
+def parsePicklistArg (arg : String) : Except Err (String × String × Coltype × Bool) :=
+  let parts := arg.splitOn ":"
+  let styled : Except Err (List String × Bool) :=
+    if parts.length == 4 then
+      match parts.getLast? with
+      | some "include" => .ok (parts.dropLast, false)
+      | some "exclude" => .ok (parts.dropLast, true)
+      | _ => .error .value
+    else .ok (parts, false)
+  match styled with
+  | .error e => .error e
+  | .ok (fields, excl) =>
+    match fields with
+    | [file, col, ct] =>
+      match Gen.Coltype.all.find? (·.str == ct) with
+      | none => .error .value
+      | some c => if c.isMeta && col != "" then .error .value else .ok (file, col, c, excl)
+    | _ => .error .value
+
+/-- `_check_select_parameters`, as far as the stream can reach it: a moltype that is not one of 'DNA', 'protein', 'dayhoff',
+    'hp' (e.g. 'dna') is refused with ValueError by every container's `select`, before anything else happens -/
+def checkSelectParameters (moltypeKnown : Bool) : Except Err Unit :=
+  if moltypeKnown then .ok () else .error .value
+
 /-! ### search -/
 
 def overlaps (q s : Sig) : Bool := q.hashes.any (s.hashes.contains ·)
